@@ -22,6 +22,7 @@ type Op struct {
 	Op   string `json:"op"`             // invoke | prio | done | silence | finish
 	I    int    `json:"i,omitempty"`    // finish: invocation
 	Mode string `json:"mode,omitempty"` // invoke: manual (ignores cancellation until finished) | prompt (returns on cancellation)
+	T    int    `json:"t,omitempty"`    // invoke: context timeout in microseconds (0 = one hour, never fires)
 	Fast bool   `json:"fast,omitempty"` // do not wait for the manager's goroutines to settle before the next op (real races)
 }
 
@@ -58,10 +59,19 @@ type body struct {
 
 type invState struct {
 	mode     string
+	timeout  time.Duration
 	active   int32 // executions of this invocation's body currently running
 	execs    int32
-	retN     int // replica of backgroundFetch's closure: caller state written by the body (unsynchronised on purpose)
 	returned chan struct{}
+
+	rmu     sync.Mutex
+	results []result // what each execution returned (recorded by the fake blob read itself)
+}
+
+// result of one execution of the body (one blob.ReadAt in fs/layer backgroundFetch)
+type result struct {
+	n   int
+	err error
 }
 
 type run struct {
@@ -153,41 +163,81 @@ func (r *run) sink(ev string, inv int, val int64) {
 	}
 }
 
-func (r *run) do(h int) func(context.Context) {
-	st := r.invs[h]
-	return func(ctx context.Context) {
-		k := int(atomic.AddInt32(&st.execs, 1)) - 1
-		if a := atomic.AddInt32(&st.active, 1); a > 1 {
-			r.problem("self-overlap: execution %d of invocation %d started while %d other execution(s) of it still run", k, h, a-1)
-		}
-		if g := atomic.AddInt32(&r.active, 1); int(g) > r.conc {
-			r.problem("bound: %d bodies running at once with concurrency %d", g, r.conc)
-		}
-		st.retN = k // the caller's result variable, as in fs/layer backgroundFetch
-		b := &body{inv: h, k: k, ctx: ctx, fin: make(chan struct{}), ended: make(chan struct{})}
-		r.bmu.Lock()
-		r.bodies[b] = true
-		r.bmu.Unlock()
-		if st.mode == "prompt" {
-			select {
-			case <-b.fin:
-			case <-ctx.Done():
-			}
-		} else {
-			<-b.fin
-		}
-		st.retN = k
-		r.bmu.Lock()
-		delete(r.bodies, b)
-		r.bmu.Unlock()
-		atomic.AddInt32(&r.active, -1)
-		atomic.AddInt32(&st.active, -1)
-		r.mu.Lock()
-		r.log = append(r.log, Ev{E: "body-done", I: h, K: k, B: ctx.Err() != nil})
-		r.mu.Unlock()
-		close(b.ended)
-	}
+// readAt is a replica of the readerAtFunc closure of fs/layer (*layer).backgroundFetch: the result variables
+// retN/retErr and the buffer p belong to the caller and are written by the task body, exactly as there
+// (unsynchronised; what orders the accesses is InvokeBackgroundTask itself).
+func (r *run) readAt(h int, st *invState, p []byte, offset int64) (retN int, retErr error) {
+	r.m.InvokeBackgroundTask(func(ctx context.Context) {
+		retN, retErr = r.blobReadAt(h, st, p, offset, ctx)
+	}, st.timeout)
+	return
 }
+
+// blobReadAt stands for l.blob.ReadAt(p, offset, remote.WithContext(ctx)): it writes into p while it runs, takes as
+// long as the script wants and notices the cancellation as late as the script wants.
+func (r *run) blobReadAt(h int, st *invState, p []byte, offset int64, ctx context.Context) (int, error) {
+	k := int(atomic.AddInt32(&st.execs, 1)) - 1
+	if a := atomic.AddInt32(&st.active, 1); a > 1 {
+		r.problem("self-overlap: execution %d of invocation %d started while %d other execution(s) of it still run", k, h, a-1)
+	}
+	if g := atomic.AddInt32(&r.active, 1); int(g) > r.conc {
+		r.problem("bound: %d bodies running at once with concurrency %d", g, r.conc)
+	}
+	p[0] = byte(k) // partial data arrives in the caller's buffer
+	b := &body{inv: h, k: k, ctx: ctx, fin: make(chan struct{}), ended: make(chan struct{})}
+	r.bmu.Lock()
+	r.bodies[b] = true
+	r.bmu.Unlock()
+	timeoutLogged := false
+	ctxDone := ctx.Done()
+wait:
+	for {
+		select {
+		case <-b.fin:
+			break wait
+		case <-ctxDone:
+			if st.mode == "prompt" {
+				break wait
+			}
+			ctxDone = nil // manual: keeps going although the context is done
+			r.mu.Lock()
+			if ctx.Err() == context.DeadlineExceeded {
+				r.log = append(r.log, Ev{E: "timeout", I: h, K: k})
+				timeoutLogged = true
+			}
+			r.mu.Unlock()
+		}
+	}
+	r.bmu.Lock()
+	delete(r.bodies, b)
+	r.bmu.Unlock()
+	atomic.AddInt32(&r.active, -1)
+	atomic.AddInt32(&st.active, -1)
+	r.mu.Lock()
+	err := ctx.Err()
+	if err == context.DeadlineExceeded && !timeoutLogged {
+		r.log = append(r.log, Ev{E: "timeout", I: h, K: k})
+	}
+	r.log = append(r.log, Ev{E: "body-done", I: h, K: k, B: err != nil})
+	r.mu.Unlock()
+	n := 0
+	if err == nil {
+		for j := range p {
+			p[j] = pattern(k, offset, j)
+		}
+		n = len(p)
+	}
+	st.rmu.Lock()
+	for len(st.results) <= k {
+		st.results = append(st.results, result{})
+	}
+	st.results[k] = result{n, err}
+	st.rmu.Unlock()
+	close(b.ended)
+	return n, err
+}
+
+func pattern(k int, offset int64, j int) byte { return byte(17*k + int(offset) + j + 1) }
 
 func (r *run) running(inv int) []*body {
 	r.bmu.Lock()
@@ -238,13 +288,39 @@ func (r *run) step(o Op) {
 		if mode != "prompt" {
 			mode = "manual"
 		}
-		st := &invState{mode: mode, returned: make(chan struct{})}
+		timeout := time.Hour
+		if o.T > 0 {
+			timeout = time.Duration(o.T) * time.Microsecond
+		}
+		st := &invState{mode: mode, timeout: timeout, returned: make(chan struct{})}
 		r.invs = append(r.invs, st)
 		n0 := r.count("invoke")
 		go func() {
-			r.m.InvokeBackgroundTask(r.do(h), time.Hour)
+			p, offset := make([]byte, 24), int64(100*h)
+			n, err := r.readAt(h, st, p, offset)
 			if a := atomic.LoadInt32(&st.active); a != 0 {
 				r.problem("running-at-return: %d execution(s) of invocation %d still run when InvokeBackgroundTask returned", a, h)
+			}
+			// clause: the caller's result variables and buffer hold what ONE execution - the last one - produced
+			st.rmu.Lock()
+			last := int(atomic.LoadInt32(&st.execs)) - 1
+			var want result
+			if last >= 0 && last < len(st.results) {
+				want = st.results[last]
+			} else {
+				r.problem("caller-state: invocation %d returned although its last execution %d has not returned", h, last)
+			}
+			st.rmu.Unlock()
+			if n != want.n || err != want.err {
+				r.problem("caller-state: invocation %d returned (n=%d, err=%v) but its last execution %d returned (n=%d, err=%v)", h, n, err, last, want.n, want.err)
+			}
+			if err == nil {
+				for j := range p {
+					if p[j] != pattern(last, offset, j) {
+						r.problem("caller-state: buffer of invocation %d does not hold the bytes of its last execution %d at index %d", h, last, j)
+						break
+					}
+				}
 			}
 			r.mu.Lock()
 			r.log = append(r.log, Ev{E: "return", I: h})
@@ -435,6 +511,8 @@ func coqEv(e Ev) string {
 		return fmt.Sprintf("ERelease %d", e.I)
 	case "body-done":
 		return fmt.Sprintf("EBodyDone %d %d %s", e.I, e.K, hx.CoqBool(e.B))
+	case "timeout":
+		return fmt.Sprintf("ETimeout %d %d", e.I, e.K)
 	case "return":
 		return fmt.Sprintf("EReturn %d", e.I)
 	}
@@ -472,7 +550,11 @@ func gen(r *hx.Rng, tier string) Case {
 				if r.Chance(2, 5) {
 					mode = "prompt"
 				}
-				add(Op{Op: "invoke", Mode: mode})
+				o := Op{Op: "invoke", Mode: mode}
+				if r.Chance(1, 5) {
+					o.T = []int{50, 300, 1000, 3000}[r.Intn(4)]
+				}
+				add(o)
 				ninv++
 			}
 		case 1:
@@ -512,6 +594,9 @@ func main() {
 			ctx.Count("op." + o.Op)
 			if o.Op == "invoke" {
 				ctx.Count("op.invoke." + o.Mode)
+				if o.T > 0 {
+					ctx.Count("op.invoke.timeout")
+				}
 			}
 			if o.Fast {
 				ctx.Count("op.fast")
@@ -575,6 +660,10 @@ func main() {
 		// nested prioritized tasks, prompt bodies, three invocations on two slots
 		{Conc: 2, Ops: []Op{{Op: "invoke", Mode: "prompt"}, {Op: "invoke", Mode: "prompt"}, {Op: "invoke", Mode: "manual"}, {Op: "prio"}, {Op: "prio"}, {Op: "done"}, {Op: "silence"}, {Op: "done"}, {Op: "silence"}, {Op: "finish", I: 1}, {Op: "prio"}, {Op: "finish", I: 0}}},
 	}
+	corpus = append(corpus,
+		// the context times out while the body runs: the invoker keeps waiting; a prompt body returns and the task counts as done
+		Case{Conc: 1, Ops: []Op{{Op: "invoke", Mode: "manual", T: 200}, {Op: "invoke", Mode: "prompt", T: 200}, {Op: "prio"}, {Op: "finish", I: 0}, {Op: "done"}, {Op: "silence"}, {Op: "finish", I: 0}}},
+	)
 	// the same schedules with the script racing against the manager's goroutines
 	for _, c := range corpus[:4] {
 		f := Case{Conc: c.Conc}
